@@ -1,4 +1,5 @@
 """property id -> harness modules (engine X: CrossHair) and z modules (engine Z: z3)"""
 PROPS = {
+    'C10': {'harness': ['harness/C10_state.py']},
     'C17': {'harness': ['harness/C17_subst.py']},
 }
